@@ -26,6 +26,11 @@ def run(prog, rep):
     cd = Codecs(prog)
     cd.flag_errors(rep)
     rep.attempt(size_identity, prog, cd, rep, with_consumed=False)
+    # .. for every block object the container is handed - also one that came out of a file: a decoded block declares the size of
+    # what it will write only if every attribute the writer reads comes back in the kind the writer's size polynomial assumes
+    from .c01 import attr_linkage
+    for u_ in cd.units.values():
+        rep.attempt(attr_linkage, rep, cd, u_, rule="size-of-decoded-object")
     # .. which identifies len(map) with len(items): true only while the two lists are mutated pairwise on every path
     from .c01 import equivalence_discharge
     equivalence_discharge(prog, cd, rep)
